@@ -255,7 +255,7 @@ def run(tier, seed, acc):
     cfgs = configs(tier, seed)
     run_lattice(MOD, cfgs, acc, shards_per_worker=8)
     c = acc.counts
-    if c.get("ladders", 0) < 50:
+    if not acc.viol and (c.get("ladders", 0) < 50):
         raise HarnessError(f"C06 non-vacuity floor missed: {c}")
     cov = {
         "evaluations": c.get("evaluations", 0),
